@@ -65,6 +65,42 @@ theorem add_reaction_step (y : Sys) (g : Good y.s) (r : Id) (lb ub : EB) (ps : L
     (hnew : y.s.hasR r = false) (hle : EB.le lb ub = true) (hu : r ∈ y.s.univR) (fr : Fresh y.s r)
     (hm : ∀ p ∈ ps, y.s.hasM p.1 = true) : Step y (addRxn y r lb ub ps) := addRxn_step y g r lb ub ps hnew hle hu fr hm
 
+/-- `Model.add_metabolites([Metabolite(m)])` for an id new to the model does what it documents and nothing else: the metabolite is listed, lists no
+reaction, has an (empty) steady-state row; every other metabolite, row and back-reference, and everything about reactions, genes, variables,
+objective and direction is untouched -/
+theorem add_metabolite_spec (y : Sys) (m : Id) :
+    let s' := (addMet y m).s
+    s'.hasM m = true ∧ s'.hasC m = true ∧ (∀ r, s'.mr m r = false) ∧ (y.s.hasC m = false → ∀ v, s'.co m v = 0) ∧
+    (∀ x, x ≠ m → s'.hasM x = y.s.hasM x ∧ s'.hasC x = y.s.hasC x ∧ s'.co x = y.s.co x ∧ s'.mr x = y.s.mr x) ∧
+    s'.hasR = y.s.hasR ∧ s'.hasG = y.s.hasG ∧ s'.lb = y.s.lb ∧ s'.ub = y.s.ub ∧ s'.st = y.s.st ∧ s'.rule = y.s.rule ∧ s'.gf = y.s.gf ∧
+    s'.hasV = y.s.hasV ∧ s'.vlb = y.s.vlb ∧ s'.vub = y.s.vub ∧ s'.obj = y.s.obj ∧ s'.dirMax = y.s.dirMax := addMet_effect y m
+
+theorem add_metabolite_step (y : Sys) (g : Good y.s) (m : Id) (hm : y.s.hasM m = false) : Step y (addMet y m) := addMet_step y g m hm
+
+/-- `Model.remove_metabolites([m])` (not destructive) does what it documents: the metabolite and its row are gone, no reaction of the model keeps a
+coefficient for it, every reaction stays and keeps all its other coefficients -/
+theorem remove_metabolite_spec (y : Sys) (g : Good y.s) (m : Id) (hm : y.s.hasM m = true) :
+    let s' := (rmMet y m).s
+    s'.hasM m = false ∧ s'.hasC m = false ∧ (∀ x, x ≠ m → s'.hasM x = y.s.hasM x) ∧ s'.hasR = y.s.hasR ∧
+    (∀ r, y.s.hasR r = true → s'.st r m = 0) ∧ (∀ r x, x ≠ m → s'.st r x = y.s.st r x) := rmMet_effect y g m hm
+
+/-- … keeping cross-references and solver consistent; inside a context every step of it is recorded and taken back -/
+theorem remove_metabolite_step (y : Sys) (g : Good y.s) (m : Id) (hm : y.s.hasM m = true) : Step y (rmMet y m) := rmMet_step y g m hm
+
+/-- `reaction *= k` (k ≠ 0) does what it documents: it never raises, every coefficient of the reaction is multiplied by `k`, a negative `k` swaps
+and negates the bounds, other reactions keep coefficients and bounds, membership, rules and objective stay; cross-references and solver stay
+consistent and the enclosing context takes it back -/
+theorem scale_reaction_spec (y : Sys) (g : Good y.s) (r : Id) (hr : y.s.hasR r = true) (k : Rat) (hk : k ≠ 0) :
+    let s' := (imul y r k).1.s
+    (imul y r k).2 = none ∧ Step y (imul y r k).1 ∧
+    (∀ m, s'.st r m = y.s.st r m * k) ∧ (∀ x m, x ≠ r → s'.st x m = y.s.st x m) ∧
+    (s'.lb r = if k < 0 then (y.s.ub r).neg else y.s.lb r) ∧ (s'.ub r = if k < 0 then (y.s.lb r).neg else y.s.ub r) ∧
+    (∀ x, x ≠ r → s'.lb x = y.s.lb x ∧ s'.ub x = y.s.ub x) ∧
+    s'.hasR = y.s.hasR ∧ s'.hasM = y.s.hasM ∧ s'.rule = y.s.rule ∧ s'.obj = y.s.obj := by
+  obtain ⟨h1, h2, h3⟩ := imul_step y g r hr k hk
+  show _ ∧ _
+  rw [h3]
+  exact ⟨h2, h1, imulSt_effect y.s r k⟩
 
 example : WF demo := demo_good.wf
 
